@@ -241,7 +241,11 @@ class Concatenator(Group):  # pylint: disable=too-many-public-methods
             mask is None and new_entity.workspace != self.workspace
         ):  # Fast copy to new workspace
             new_entity.concatenated_attributes = deepcopy(self.concatenated_attributes)
-            new_entity.concatenated_object_ids = self.concatenated_object_ids
+            new_entity.concatenated_object_ids = (
+                None
+                if self.concatenated_object_ids is None
+                else list(self.concatenated_object_ids)
+            )
 
             for field in self.index:
                 values = self.workspace.fetch_concatenated_values(self, field)
